@@ -23,6 +23,10 @@ This module ties the model to the real server over TCP:
             EVALSHA of it (lower / upper case hex, loaded twice) equal EVAL of the source in reply and dataset — for every shape of
             source text (leading / trailing blanks, tabs, newlines, CRLF, comments, NUL / non-UTF-8 bytes, empty, very long);
             a hash never loaded, or flushed, is NOSCRIPT without effect.
+  third-party  what OTHER connections observe - a client blocked in BLPOP / BRPOP on a key the script pushes to (one / two keys, two
+            waiters, push-then-pop, list renamed onto the key, aborting script), subscribers, a WATCHing connection that EXECs
+            afterwards - must be the same after EVAL and after EVALSHA of the same source, plain and inside MULTI/EXEC, and (for data
+            commands) the same as after the directly issued commands.
   refused   every name of `Lua.refusedNames` (except SHUTDOWN / DEBUG, never sent) inside call and pcall:
             error, nothing changed, connection state untouched; names unknown to the executor likewise.
   sandbox   `os`, `io`, `loadfile`, … must be nil / raise; SAVE-like stubs must not touch the disk.
@@ -828,6 +832,7 @@ class Checker:
         self.findings = {f["match"]: f for f in findings}
         self.known = {}              # finding id -> finding (confirmed on this run)
         self.forms = {}              # syntax form -> number of twin cases
+        self.cases = {}              # case of command name / option words -> number of twin cases
         self.oracle_fail = []        # details of oracle failures outside known findings
         self.disagree = []           # model disagreements
         self.samples = {}
@@ -1259,6 +1264,25 @@ CORPUS = [
 ]
 
 
+# ---- the CASE of the command name and of option words is a dimension of every twin command (both sides get the same text)
+OPTION_WORDS = {b"NX", b"XX", b"EX", b"PX", b"GET", b"KEEPTTL", b"EXAT", b"CH", b"INCR", b"GT", b"LT", b"WITHSCORES", b"LIMIT", b"REV", b"BYSCORE",
+                b"COUNT", b"MATCH", b"TYPE", b"NOVALUES", b"MAXLEN", b"MINID", b"STREAMS", b"GROUP", b"NOACK", b"BLOCK", b"JUSTID", b"FORCE", b"IDLE",
+                b"TIME", b"RETRYCOUNT", b"MKSTREAM", b"NOMKSTREAM", b"CREATE", b"DESTROY", b"SETID", b"DELCONSUMER", b"CREATECONSUMER", b"STREAM",
+                b"GROUPS", b"CONSUMERS"}
+CASES3 = ["upper", "lower", "mixed"]
+
+
+def mix(b):
+    return bytes((c | 0x20) if i % 2 else (c & 0xDF) for i, c in enumerate(b)) if b.isalpha() else b
+
+
+def recase(args, how):
+    """the command name, and every argument that is an option word of the command's syntax, in upper / lower / mixed case
+    (option words are recognised by spelling, in whatever case the generator wrote them; data arguments are left alone)"""
+    f = {"upper": bytes.upper, "lower": bytes.lower, "mixed": mix}[how]
+    return [f(args[0])] + [f(a) if a.upper() in OPTION_WORDS and a.isalpha() else a for a in args[1:]]
+
+
 G1 = [[b"XREADGROUP", b"GROUP", b"g", b"c1", b"STREAMS", b"s1", b">"]]       # delivers s1's two entries to c1
 FORM_CORPUS = [
     # (extra set-up after FORMS_SETUP, command, form tag): the multi-key / option forms, one deterministic case each
@@ -1322,7 +1346,11 @@ def layer_twin(ck, r, n_hist, per_hist):
     rep = ck.rep
     tw = Twin(ck.drv)
     try:
-        def one(args, variant, shape=""):
+        def one(args, variant, shape="", case=None):
+            if case is not None:
+                args = recase(args, case)
+                rep.count("case." + case)
+                ck.cases[case] = ck.cases.get(case, 0) + 1
             ra, rb = tw.run(args, variant)
             if rb[0] == "died":
                 ck.judge_twin(tw, args, variant, ra, rb, "", "")
@@ -1334,14 +1362,15 @@ def layer_twin(ck, r, n_hist, per_hist):
                 return True
             da, db_ = tw.dumps()
             return ck.judge_twin(tw, args, variant, ra, rb, da, db_, shape)
-        for db, setup, cmd, variant in CORPUS:
-            tw.fresh(db, setup)
-            one(cmd, variant, "corpus")
+        for i, (db, setup, cmd, variant) in enumerate(CORPUS):
+            for case in ("upper", CASES3[1 + i % 2]):
+                tw.fresh(db, setup)
+                one(cmd, variant, "corpus", case)
         base = [[b"SET", b"k1", b"v"], [b"ZADD", b"z", b"1", b"a", b"2", b"b", b"3", b"c"], [b"XADD", b"x", b"1-1", b"f", b"v"]] + FORMS_SETUP
         for i, (extra, cmd, tag) in enumerate(FORM_CORPUS):
-            for variant in ("raw", "ptype" if i % 2 else "wrap"):
+            for j, variant in enumerate(("raw", "ptype" if i % 2 else "wrap", "raw")):
                 tw.fresh(5 if i % 3 == 2 else 0, base + extra)
-                one(cmd, variant, "form." + tag)
+                one(cmd, variant, "form." + tag, CASES3[(i + j) % 3] if j < 2 else CASES3[(i + 2) % 3])
         for h in range(n_hist):
             rr = r.fork("twin%d" % h)
             g = ksgen.Gen(rr, ksgen.STRING_VOCAB + ksgen.COLL_VOCAB)
@@ -1351,7 +1380,7 @@ def layer_twin(ck, r, n_hist, per_hist):
             for i in range(per_hist):
                 args, shape = gen_command(rr, g)
                 variant = rr.choice(VARIANT_PICK)
-                if one(args, variant, shape):
+                if one(args, variant, shape, rr.choice(["upper", "upper", "lower", "mixed"])):
                     tw.fresh(db, setup)          # the twins may have diverged: start again from the common set-up
             rep.traces_validated += 1
             if h < 2:
@@ -1738,6 +1767,161 @@ def layer_script_cache(ck, r):
         srv.stop()
 
 
+# ----------------------------------------------------------------------------------------------------
+# third parties: what OTHER connections observe must not depend on how the script was started (EVAL / EVALSHA, plain / inside EXEC),
+# and for data commands not on whether the command came from a script or directly
+# ----------------------------------------------------------------------------------------------------
+def TP(tag, observers, script, keys, argv, direct=None, note=""):
+    return {"tag": tag, "observers": observers, "script": script, "keys": keys, "argv": argv, "direct": direct, "note": note}
+
+
+THIRD_PARTY_SCENARIOS = [
+    # observers: ("blpop"|"brpop", [keys]) a client blocked on those keys; ("sub", channel); ("psub", pattern); ("watch", key) a connection
+    # that WATCHes the key, queues a write and EXECs after the script.   direct: the same effect as directly issued commands (or None)
+    TP("blpop.rpush", [("blpop", [b"q"])], "return redis.call('RPUSH', KEYS[1], ARGV[1])", [b"q"], [b"v"], [[b"RPUSH", b"q", b"v"]]),
+    TP("brpop.lpush", [("brpop", [b"q"])], "return redis.call('LPUSH', KEYS[1], ARGV[1], ARGV[2])", [b"q"], [b"v1", b"v2"], [[b"LPUSH", b"q", b"v1", b"v2"]]),
+    TP("blpop.two-keys.second-pushed", [("blpop", [b"q1", b"q2"])], "return redis.call('RPUSH', KEYS[1], ARGV[1])", [b"q2"], [b"v"], [[b"RPUSH", b"q2", b"v"]]),
+    TP("blpop.two-waiters.one-element", [("blpop", [b"q"]), ("blpop", [b"q"])], "return redis.call('RPUSH', KEYS[1], ARGV[1])", [b"q"], [b"v"], [[b"RPUSH", b"q", b"v"]]),
+    TP("blpop.two-waiters.two-elements", [("blpop", [b"q"]), ("brpop", [b"q"])], "return redis.call('RPUSH', KEYS[1], ARGV[1], ARGV[2])", [b"q"], [b"a", b"b"],
+       [[b"RPUSH", b"q", b"a", b"b"]]),
+    TP("blpop.push-then-pop-in-script", [("blpop", [b"q"])], "redis.call('RPUSH', KEYS[1], ARGV[1]) return redis.call('LPOP', KEYS[1])", [b"q"], [b"v"],
+       [[b"MULTI"], [b"RPUSH", b"q", b"v"], [b"LPOP", b"q"], [b"EXEC"]], note="net effect: the list is empty again when the script is over"),
+    TP("blpop.list-renamed-onto-key", [("blpop", [b"q"])], "redis.call('RPUSH', 'tmp', ARGV[1]) return redis.call('RENAME', 'tmp', KEYS[1])", [b"q"], [b"v"],
+       [[b"RPUSH", b"tmp", b"v"], [b"RENAME", b"tmp", b"q"]]),
+    TP("blpop.two-pushes-two-keys", [("blpop", [b"q1"]), ("blpop", [b"q2"])], "redis.call('RPUSH', KEYS[1], 'a') return redis.call('RPUSH', KEYS[2], 'b')",
+       [b"q1", b"q2"], [], [[b"RPUSH", b"q1", b"a"], [b"RPUSH", b"q2", b"b"]]),
+    TP("blpop.failing-call-after-push", [("blpop", [b"q"])], "redis.call('RPUSH', KEYS[1], ARGV[1]) return redis.call('INCR', KEYS[1])", [b"q"], [b"v"], None,
+       note="the script aborts after the push: the element is there, the waiter must get it"),
+    TP("blpop.other-key-pushed", [("blpop", [b"q"])], "return redis.call('RPUSH', 'elsewhere', ARGV[1])", [b"q"], [b"v"], [[b"RPUSH", b"elsewhere", b"v"]]),
+    TP("subscriber.publish", [("sub", b"ch"), ("psub", b"c*")], "return redis.pcall('PUBLISH', ARGV[1], ARGV[2])", [], [b"ch", b"m"], None,
+       note="whatever a script's PUBLISH does, EVAL and EVALSHA must do the same"),
+    TP("watch.key-written", [("watch", b"w")], "return redis.call('SET', KEYS[1], ARGV[1])", [b"w"], [b"2"], [[b"SET", b"w", b"2"]]),
+    TP("watch.key-not-written", [("watch", b"w")], "return redis.call('SET', 'other', ARGV[1])", [b"w"], [b"2"], [[b"SET", b"other", b"2"]]),
+    TP("watch.key-deleted", [("watch", b"w")], "return redis.call('DEL', KEYS[1])", [b"w"], [], [[b"DEL", b"w"]]),
+    TP("watch.key-expire-set", [("watch", b"w")], "return redis.call('EXPIRE', KEYS[1], 1000)", [b"w"], [], [[b"EXPIRE", b"w", b"1000"]]),
+    TP("watch+blpop", [("watch", b"q"), ("blpop", [b"q"])], "return redis.call('RPUSH', KEYS[1], ARGV[1])", [b"q"], [b"v"], [[b"RPUSH", b"q", b"v"]]),
+]
+
+
+def layer_third_parties(ck):
+    rep = ck.rep
+    srv = Server("c12o")
+    ctl = srv.client()
+    dist = {}
+    try:
+        def blocked_on(key):
+            r_ = ctl.cmd("VERIF", "BLOCKED")
+            return r_[0] == "a" and any(x == ("b", key) for x in r_[1])
+
+        def run(sc, runner, in_exec, db):
+            """-> dict of everything anybody observes"""
+            if ctl.cmd("FLUSHALL") != ("s", b"OK") or ctl.cmd("SCRIPT", "FLUSH") != ("s", b"OK") or ctl.cmd("SELECT", str(db)) != ("s", b"OK"):
+                raise InternalError("FLUSHALL / SCRIPT FLUSH / SELECT failed")
+            ctl.cmd("SET", "w", "1")
+            obs, conns = {}, []
+            try:
+                for i, o in enumerate(sc["observers"]):
+                    c = srv.client()
+                    conns.append((o, c))
+                    c.cmd("SELECT", str(db))
+                    if o[0] in ("blpop", "brpop"):
+                        c.send(o[0].upper(), *(o[1] + [b"0"]))
+                        t0 = time.time()
+                        while not blocked_on(o[1][0]) and time.time() - t0 < 2.0:
+                            time.sleep(0.005)
+                        time.sleep(0.01 * (i + 1))          # registration order = the order of this list
+                    elif o[0] in ("sub", "psub"):
+                        c.cmd("SUBSCRIBE" if o[0] == "sub" else "PSUBSCRIBE", o[1])
+                    elif o[0] == "watch":
+                        c.cmd("WATCH", o[1])
+                        c.cmd("MULTI")
+                        c.cmd("SET", "by-watcher", "1")
+                a = srv.client()
+                conns.append((("actor",), a))
+                a.cmd("SELECT", str(db))
+                tail = [str(len(sc["keys"]))] + sc["keys"] + sc["argv"]
+                if runner == "EVALSHA":
+                    sha = hashlib.sha1(sc["script"].encode()).hexdigest()
+                    if a.cmd("SCRIPT", "LOAD", sc["script"]) != ("b", sha.encode()):
+                        raise InternalError("SCRIPT LOAD did not answer SHA1(source) in the third-party layer")
+                    cmds = [[b"EVALSHA", sha.encode()] + tail]
+                elif runner == "EVAL":
+                    cmds = [[b"EVAL", sc["script"].encode()] + tail]
+                else:
+                    cmds = [list(x) for x in sc["direct"]]
+                if in_exec and not (cmds and cmds[0] == [b"MULTI"]):
+                    cmds = [[b"MULTI"]] + cmds + [[b"EXEC"]]
+                replies = [a.cmd(*x, timeout=5.0) for x in cmds]
+                if runner != "DIRECT":
+                    last = replies[-1]
+                    obs["actor"] = show(norm(last[1][-1] if in_exec and last[0] == "a" and last[1] else last))
+                time.sleep(0.05)
+                for i, (o, c) in enumerate(conns[:-1]):
+                    if o[0] in ("blpop", "brpop"):
+                        try:
+                            obs["%d.%s" % (i, o[0])] = show(norm(c.read_reply(0.6)))
+                        except TimeoutError:
+                            obs["%d.%s" % (i, o[0])] = "STILL-BLOCKED"
+                    elif o[0] in ("sub", "psub"):
+                        got = []
+                        try:
+                            while True:
+                                got.append(show(norm(c.read_reply(0.2))))
+                        except TimeoutError:
+                            pass
+                        obs["%d.%s" % (i, o[0])] = " ".join(got) or "NOTHING"
+                    elif o[0] == "watch":
+                        obs["%d.watch.exec" % i] = show(norm(c.cmd("EXEC", timeout=3.0)))
+                obs["dataset"] = dump(ctl)
+                bl = ctl.cmd("VERIF", "BLOCKED")
+                # the blocking registry afterwards: key -> number of waiters (connection ids differ from run to run), and the wake-queue length
+                if bl[0] == "a" and bl[1]:
+                    xs = bl[1][:-1]
+                    obs["still-registered"] = " ".join("%s:%d" % (hx(xs[i][1]), len(xs[i + 1][1])) for i in range(0, len(xs) - 1, 2)) + " wakeq=" + show(bl[1][-1])
+                else:
+                    obs["still-registered"] = str(bl)
+            finally:
+                for _, c in conns:
+                    c.close()
+                time.sleep(0.02)
+            return obs
+        for n, sc in enumerate(THIRD_PARTY_SCENARIOS):
+            for in_exec in (False, True):
+                db = [0, 4][(n + in_exec) % 2]
+                ctx = "inside-exec" if in_exec else "plain"
+                dist[sc["tag"] + "." + ctx] = dist.get(sc["tag"] + "." + ctx, 0) + 1
+                rep.count("third-party.%s.%s" % (sc["tag"], ctx))
+                o_eval = run(sc, "EVAL", in_exec, db)
+                o_sha = run(sc, "EVALSHA", in_exec, db)
+                rep.evaluations += 2
+                rep.nontrivial(("third-party", sc["tag"], ctx, tuple(sorted((k, v[:12]) for k, v in o_eval.items() if k != "dataset"))))
+                det = {"layer": "third-party", "scenario": sc["tag"], "context": ctx, "db": db, "observers": [str(o) for o in sc["observers"]], "script": sc["script"],
+                       "keys": [hx(k) for k in sc["keys"]], "argv": [hx(a_) for a_ in sc["argv"]], "note": sc["note"],
+                       "observed_after_EVAL": o_eval, "observed_after_EVALSHA": o_sha}
+                if FAULT == "third" and sc["tag"] == "blpop.rpush" and not in_exec:
+                    o_sha = dict(o_sha, **{"0.blpop": "STILL-BLOCKED"})
+                    det["observed_after_EVALSHA"] = o_sha
+                if o_eval != o_sha:
+                    diff = sorted(k for k in set(o_eval) | set(o_sha) if o_eval.get(k) != o_sha.get(k))
+                    ck.fail("third-party", "what other connections observe after EVALSHA differs from EVAL of the same source (%s, %s): %s" % (sc["tag"], ctx, ", ".join(diff)), det)
+                    continue
+                if sc["direct"] is not None:
+                    o_dir = run(sc, "DIRECT", in_exec, db)
+                    rep.evaluations += 1
+                    det["observed_after_direct_commands"] = o_dir
+                    o_cmp = {k: v for k, v in o_eval.items() if k != "actor"}
+                    if o_cmp != o_dir:
+                        diff = sorted(k for k in set(o_cmp) | set(o_dir) if o_cmp.get(k) != o_dir.get(k))
+                        cause = "third-party:" + sc["tag"].split(".")[0] + ("-in-exec" if in_exec else "")
+                        if not ck.note_known(cause, det):
+                            ck.fail("third-party", "what other connections observe after the script differs from the directly issued commands (%s, %s): %s"
+                                    % (sc["tag"], ctx, ", ".join(diff)), det)
+        rep.extra["third_party_scenarios"] = dict(sorted(dist.items()))
+    finally:
+        ctl.close()
+        srv.stop()
+
+
 REFUSED_ARGS = {
     "BLPOP": [b"l", b"0"], "BRPOP": [b"l", b"0"], "BZPOPMIN": [b"z", b"0"], "BZPOPMAX": [b"z", b"0"],
     "SELECT": [b"1"], "AUTH": [b"pw"], "QUIT": [], "CLIENT": [b"GETNAME"], "RESET": [],
@@ -1960,7 +2144,19 @@ def layer_time_limit(ck):
 
     def run(tag, src, must_fail):
         out = {"case": tag, "script": src, "limit_s": limit, "memory_limit_bytes": mem_limit, "address_space_cap": AS_CAP}
-        srv = Server("c12l", preexec_fn=cap_address_space)
+        srv = None
+        for attempt in range(4):            # many servers start at once: a free port can be taken between probing and binding
+            try:
+                srv = Server("c12l", preexec_fn=cap_address_space)
+                break
+            except InternalError as e:
+                out["start_error"] = str(e)[-200:]
+                time.sleep(0.2 * (attempt + 1))
+        if srv is None:
+            out["bad"] = []
+            out["harness_error"] = "dedicated server did not start: " + out.get("start_error", "")
+            results.append(out)
+            return
         try:
             c, c2 = srv.client(timeout=limit + slack + 5), srv.client()
             c.cmd("SELECT", "3")
@@ -2006,7 +2202,8 @@ def layer_time_limit(ck):
             out["n"] = str(out.get("n"))
             out["bad"] = bad
         except Exception as e:      # noqa
-            out["bad"] = ["harness error: %r" % e]
+            out["bad"] = []
+            out["harness_error"] = "%s: %r" % (tag, e)
         finally:
             srv.stop()
         results.append(out)
@@ -2015,14 +2212,15 @@ def layer_time_limit(ck):
         t.start()
     for t in ts:
         t.join(limit + slack + 30)
+    broken = [o for o in results if o.get("harness_error")]
+    if broken or len(results) != len(cases):
+        raise InternalError("time-limit layer: %s" % (broken[0]["harness_error"] if broken else "a case thread did not finish"))
     for out in sorted(results, key=lambda o: o["case"]):
         rep.evaluations += 1
         rep.count("time-limit." + out["case"])
         rep.nontrivial(("time-limit", out["case"], not out["bad"]))
         if out["bad"]:
             ck.fail("time-limit", "%s: %s" % (out["case"], "; ".join(out["bad"])), dict(out, layer="time-limit"))
-    if len(results) != len(cases):
-        ck.fail("time-limit", "a time-limit case did not finish (server wedged?)", {"finished": [o["case"] for o in results]})
     rep.extra["time_limit_cases"] = {o["case"]: o.get("seconds") for o in results}
 
 
@@ -2058,6 +2256,7 @@ def verdict(ck, ok, log, errs):
         rep.known(fid, f["what"])
     rep.extra["syntax_form_distribution"] = dict(sorted(ck.forms.items()))
     rep.extra["syntax_forms_distinct"] = len(ck.forms)
+    rep.extra["command_case_distribution"] = dict(sorted(ck.cases.items()))
     rep.extra["model_disagreements"] = len(ck.disagree)
     rep.extra["oracle_failures_outside_known_findings"] = len(ck.oracle_fail)
     rep.extra["known_finding_samples"] = {m: {k: v for k, v in d.items() if k in ("cmd_text", "variant", "db", "direct_reply_A", "script_reply_B", "spec_prescribes", "script", "server_reply")}
@@ -2114,6 +2313,7 @@ def main(tier, seed):
         layer_twin(ck, r, 150 if q else 1800, 30 if q else 40)
         layer_programs(ck, r, 80 if q else 1000, 16 if q else 30)
         layer_script_cache(ck, r)
+        layer_third_parties(ck)
         layer_refused(ck)
         layer_sandbox(ck)
         layer_atomic(ck, 3, 150 if q else 1500)
